@@ -228,3 +228,192 @@ Theorem C11_zero_declared_length_refuted :
     snd (scan Toy.full Toy.info Toy.filt Toy.hook true false false fuel s 8) = Some EFuel.
 Proof. exact zero_declared_length_refuted_exists. Qed.
 Print Assumptions C11_zero_declared_length_refuted.
+
+(* ======================================================================== *)
+(* END TO END: the scanner over the CONCRETE message decoder                  *)
+(* ======================================================================== *)
+(* StreamFrame.v instantiates the scanner with the framing decoder of Frame.v:
+     frame_process dd view info s
+        = decoder.process(s, start_signature=None, info_only=info)  (ignore_value_expectation
+          = False) reduced to what the scanner reads off the message object:
+          len(serialized_bytes), length.value, data_category.value, n_subsets.value,
+          and [view m] (whatever else a filter expression looks at; arbitrary);
+     frame_hook tdp = the table-definition branch: [tdp] (arbitrary) when
+          data_category = 11 and n_subsets > 0, nothing otherwise;
+     frame_generate dd view tdp filt = generate (frame_process dd view false)
+          (frame_process dd view true) filt (frame_hook tdp).
+   The hypotheses full_ok / info_ok / filt_ok of the theorems above are PROVED
+   below for every message produced by Frame.encode_message that satisfies the
+   executable well-formedness conditions of C04_frame_roundtrip
+     msg_wfb dd m  = values fit their fields and carry the expected signatures,
+                     fewer than two surplus octets after the descriptors, the
+                     template decoder consumes exactly the encoded data bits;
+     msg_quietb m  = not (data_category = 11 and n_subsets > 0)   [full mode only].
+   [dd_template T_of n_of c_of] is the framing model with the real template
+   decoders (Decode.decode_uncompressed / DecodeC.decode_compressed over the
+   template T_of props, n_of props subsets, compressed iff c_of props): with it
+   NO hypothesis about any decoder is left.
+   A stream is a list of items (ignore_declared_length, message as nested values,
+   separator bytes): item_bytes it = the encoder's output, stream_of items the
+   (message, separator) pairs; item_okb dd io it = the item encodes, msg_wfb,
+   (io or msg_quietb), and 'BUFR' does not occur in the separator (nosigb). *)
+From PBK Require Import Bits Descr Frame FrameProofs FrameRoundtrip FramePrefix FramePrefixEnc
+  Column DecodeC FramePrefixData StreamFrame StreamFrameProofs StreamFrameTemplate.
+
+(* bufr_message.length.value of ANY successful decode (full or metadata-only,
+   any template decoder) is the 24-bit field at octets 4..6 of the input *)
+Theorem C11_e2e_decoded_length :
+  forall (dd : list (pname * pvalue) -> reader -> result (bits * reader)) info s m,
+  decode_message dd None info false s = Ok m ->
+  exists v rest, read_uint 24 (skipn 32 (bits_of_bytes s)) = Ok (v, rest) /\
+                 prop_get Nlength (m_props m) = Some (PUint (Z.of_N v)).
+Proof. exact decoded_length. Qed.
+Print Assumptions C11_e2e_decoded_length.
+
+(* H1 + H2: the full decode of an encoded message followed by ANY bytes returns
+   one and the same result, has consumed exactly the message, table hook quiet.
+   Template decoder abstract, constrained as in C12_message_trailing_bytes. *)
+Theorem C11_e2e_full_ok :
+  forall (dd : list (pname * pvalue) -> reader -> result (bits * reader)),
+  (forall p r b r', dd p r = Ok (b, r') -> r = b ++ r') ->
+  (forall p r b r' s, dd p r = Ok (b, r') -> dd p (r ++ s) = Ok (b, r' ++ s)) ->
+  forall view tdp ign json m,
+  encode_message ign json = Ok m ->
+  Forall sec_fits (m_sections m) -> Forall desc_fill_ok (m_sections m) -> data_ok dd [] (m_sections m) ->
+  quiet_props (props_after (m_sections m) []) = true ->
+  full_ok (frame_process dd view false) (frame_hook tdp) (m_bytes m).
+Proof. exact encoded_full_ok. Qed.
+Print Assumptions C11_e2e_full_ok.
+
+(* H3: the metadata-only decode of an encoded message followed by ANY bytes
+   returns one and the same result whose declared length is the message's length *)
+Theorem C11_e2e_info_ok :
+  forall (dd : list (pname * pvalue) -> reader -> result (bits * reader)),
+  (forall p r b r', dd p r = Ok (b, r') -> r = b ++ r') ->
+  (forall p r b r' s, dd p r = Ok (b, r') -> dd p (r ++ s) = Ok (b, r' ++ s)) ->
+  (forall p, cuts (dd p)) ->
+  forall view ign json m,
+  encode_message ign json = Ok m ->
+  Forall sec_fits (m_sections m) -> Forall desc_fill_ok (m_sections m) -> data_ok dd [] (m_sections m) ->
+  info_ok (frame_process dd view true) (m_bytes m).
+Proof. exact encoded_info_ok. Qed.
+Print Assumptions C11_e2e_info_ok.
+
+(* the same with the real template decoders: nothing but executable conditions *)
+Theorem C11_e2e_full_ok_template : forall T_of n_of c_of view tdp ign json m,
+  encode_message ign json = Ok m ->
+  msg_wfb (dd_template T_of n_of c_of) m = true -> msg_quietb m = true ->
+  full_ok (frame_process (dd_template T_of n_of c_of) view false) (frame_hook tdp) (m_bytes m).
+Proof. exact encoded_full_ok_template. Qed.
+Print Assumptions C11_e2e_full_ok_template.
+
+Theorem C11_e2e_info_ok_template : forall T_of n_of c_of view ign json m,
+  encode_message ign json = Ok m ->
+  msg_wfb (dd_template T_of n_of c_of) m = true ->
+  info_ok (frame_process (dd_template T_of n_of c_of) view true) (m_bytes m).
+Proof. exact encoded_info_ok_template. Qed.
+Print Assumptions C11_e2e_info_ok_template.
+
+(* with a filter: [verdict dd view filt s] = the filter's value on the
+   metadata-only decode of s (None when either raises) *)
+Theorem C11_e2e_filt_ok_template : forall T_of n_of c_of view tdp filt ign json m io b,
+  encode_message ign json = Ok m ->
+  msg_wfb (dd_template T_of n_of c_of) m = true ->
+  verdict (dd_template T_of n_of c_of) view filt (m_bytes m) = Some b ->
+  (io = false -> b = true -> msg_quietb m = true) ->
+  filt_ok (frame_process (dd_template T_of n_of c_of) view false)
+          (frame_process (dd_template T_of n_of c_of) view true) filt (frame_hook tdp) io (m_bytes m) b.
+Proof. exact encoded_filt_ok_template. Qed.
+Print Assumptions C11_e2e_filt_ok_template.
+
+(* THE property, end to end: any number of encoded messages (editions, section 2,
+   compression, lengths recomputed or honoured — whatever the encoder accepts)
+   with separators not containing 'BUFR' (they may end in 'B', 'BU', 'BUF'): the
+   concrete generate_bufr_message yields exactly the messages, in order, with
+   their exact bytes, and ends normally; full and metadata-only mode; whatever
+   continue_on_error is; any table-definition processor; any view. *)
+Theorem C11_e2e_scan_exact :
+  forall (dd : list (pname * pvalue) -> reader -> result (bits * reader)),
+  (forall p r b r', dd p r = Ok (b, r') -> r = b ++ r') ->
+  (forall p r b r' s, dd p r = Ok (b, r') -> dd p (r ++ s) = Ok (b, r' ++ s)) ->
+  (forall p, cuts (dd p)) ->
+  forall view tdp filt io coe sep0 items,
+  nosigb sep0 = true -> forallb (item_okb dd io) items = true ->
+  frame_generate dd view tdp filt io coe false (sep0 ++ assemble (stream_of items))
+  = (map item_bytes items, None).
+Proof. exact e2e_scan_exact. Qed.
+Print Assumptions C11_e2e_scan_exact.
+
+Theorem C11_e2e_scan_exact_template : forall T_of n_of c_of view tdp filt io coe sep0 items,
+  nosigb sep0 = true -> forallb (item_okb (dd_template T_of n_of c_of) io) items = true ->
+  frame_generate (dd_template T_of n_of c_of) view tdp filt io coe false (sep0 ++ assemble (stream_of items))
+  = (map item_bytes items, None).
+Proof. exact e2e_scan_exact_template. Qed.
+Print Assumptions C11_e2e_scan_exact_template.
+
+Theorem C11_e2e_scan_exact_stub : forall view tdp filt io coe sep0 items,
+  nosigb sep0 = true -> forallb (item_okb stub_dd io) items = true ->
+  frame_generate stub_dd view tdp filt io coe false (sep0 ++ assemble (stream_of items))
+  = (map item_bytes items, None).
+Proof. exact e2e_scan_exact_stub. Qed.
+Print Assumptions C11_e2e_scan_exact_stub.
+
+Theorem C11_e2e_concat_pieces_template : forall T_of n_of c_of view tdp filt io coe sep0 items,
+  nosigb sep0 = true -> forallb (item_okb (dd_template T_of n_of c_of) io) items = true ->
+  concat (fst (frame_generate (dd_template T_of n_of c_of) view tdp filt io coe false
+                 (sep0 ++ assemble (stream_of items))))
+  = concat (map item_bytes items).
+Proof. exact e2e_concat_pieces_template. Qed.
+Print Assumptions C11_e2e_concat_pieces_template.
+
+(* with a filter expression: exactly the messages on whose metadata-only decode
+   the filter is true.  item_filt_okb: as item_okb, the filter evaluates without
+   raising on the metadata-only message, and only a MATCHING message must be quiet *)
+Theorem C11_e2e_scan_filter_template : forall T_of n_of c_of view tdp filt io coe sep0 items,
+  nosigb sep0 = true ->
+  forallb (item_filt_okb (dd_template T_of n_of c_of) view filt io) items = true ->
+  frame_generate (dd_template T_of n_of c_of) view tdp filt io coe true (sep0 ++ assemble (stream_of items))
+  = (filter (matches (dd_template T_of n_of c_of) view filt) (map item_bytes items), None).
+Proof. exact e2e_scan_filter_template. Qed.
+Print Assumptions C11_e2e_scan_filter_template.
+
+(* non-vacuity, computed: a stream of three messages (edition 4 uncompressed,
+   edition 3 with section 2, edition 4 compressed; real template with a delayed
+   replication and a string) behind a header ending in 'B', separated by a
+   GTS-like header ending in 'BUF', nothing, and 'BU' + '7777': the hypotheses
+   hold in both modes and for the filter [data_category == 2]; the concrete
+   scanner, RUN on the stream, returns the three messages (full, metadata-only)
+   and the two matching ones (filter) *)
+Example C11_e2e_nonvacuous :
+  nosigb e2e_sep0 = true /\
+  forallb (item_okb e2e_dd false) e2e_items = true /\ forallb (item_okb e2e_dd true) e2e_items = true /\
+  forallb (item_filt_okb e2e_dd e2e_view e2e_filt false) e2e_items = true /\
+  map (fun it => (40 <? length (item_bytes it))%nat) e2e_items = [true; true; true] /\
+  map (matches e2e_dd e2e_view e2e_filt) (map item_bytes e2e_items) = [true; false; true] /\
+  outcome_eqb (frame_generate e2e_dd e2e_view e2e_tdp e2e_filt false false false
+                 (e2e_sep0 ++ assemble (stream_of e2e_items)))
+              (map item_bytes e2e_items, None) = true /\
+  outcome_eqb (frame_generate e2e_dd e2e_view e2e_tdp e2e_filt true false false
+                 (e2e_sep0 ++ assemble (stream_of e2e_items)))
+              (map item_bytes e2e_items, None) = true /\
+  outcome_eqb (frame_generate e2e_dd e2e_view e2e_tdp e2e_filt false false true
+                 (e2e_sep0 ++ assemble (stream_of e2e_items)))
+              (filter (matches e2e_dd e2e_view e2e_filt) (map item_bytes e2e_items), None) = true.
+Proof. exact e2e_scan_nonvacuous. Qed.
+
+(* the quiet condition is not vacuous: a table-definition message (category 11,
+   two subsets) fails the full-mode condition and passes the metadata-only one *)
+Example C11_e2e_tabledef_not_quiet :
+  item_okb e2e_dd false (true, e2e_json4 11 false ex_data, []) = false /\
+  item_okb e2e_dd true (true, e2e_json4 11 false ex_data, []) = true.
+Proof. exact e2e_tabledef_not_quiet. Qed.
+
+(* the stub template decoder (C11_e2e_scan_exact_stub): three messages of 031031
+   templates, editions 3, 2 and 4, satisfy item_okb stub_dd false and scan exactly *)
+From PBK Require Import StreamFrameDamageStream.
+Example C11_e2e_stub_nonvacuous :
+  forallb (item_okb stub_dd false) (map fst (filter undamaged stub_dmg_items)) = true /\
+  outcome_eqb (frame_generate stub_dd e2e_view e2e_tdp e2e_filt false false false
+                 (e2e_sep0 ++ assemble (stream_of (map fst (filter undamaged stub_dmg_items)))))
+              (map item_bytes (map fst (filter undamaged stub_dmg_items)), None) = true.
+Proof. split; apply e2e_stub_nonvacuous. Qed.
